@@ -21,7 +21,21 @@ def fresh(name, sort=I):
     return Const(f'{name}!{next(_cnt)}', sort)
 
 
+def _is_abs(x):
+    import z3
+    try:
+        return (z3.is_app_of(x, z3.Z3_OP_ITE) and z3.is_app_of(x.arg(0), z3.Z3_OP_GE) and x.arg(0).arg(0).eq(x.arg(1))
+                and z3.is_int_value(x.arg(0).arg(1)) and x.arg(0).arg(1).as_long() == 0)
+    except Exception:  # noqa
+        return False
+
+
 def absz(x):
+    import z3
+    if z3.is_int_value(x):
+        return IntVal(abs(x.as_long()))
+    if _is_abs(x):
+        return x          # abs(abs(x)) is abs(x): keep one index term per node (E-matching)
     return If(x >= 0, x, -x)
 
 
@@ -109,6 +123,7 @@ def WF(S, uses=None):
         return ForAll([u], Implies(And(S.dom[u], u > 1), f(u)), patterns=[S.dom[u]])
     c = {
         'W1-terminal': And(S.nvars >= 0, S.dom[1], S.lvl[1] == S.nvars, S.lo[1] == 0, S.hi[1] == 0),
+        'enc-lastlen': S.lastlen >= -1,     # encoding of `_last_len`: None is -1
         'W2-ids': ForAll([u], Implies(S.dom[u], u >= 1), patterns=[S.dom[u]]),
         'W3-level-range': node(lambda x: And(0 <= S.lvl[x], S.lvl[x] < S.nvars)),
         'W3-high-regular': node(lambda x: And(S.hi[x] > 0, S.dom[S.hi[x]])),
